@@ -279,6 +279,8 @@ impl Variant {
             },
             Self::VLong(l_left) => match other {
                 Self::VLong(l_right) => long_or_overflow(l_left - l_right),
+                // not as the negation of `right - left`, which overflows for the smallest LONG
+                Self::VInteger(i_right) => long_or_overflow(l_left - i_right as i64),
                 _ => other.minus(self).and_then(|x| x.negate()),
             },
             _ => Err(VariantError::TypeMismatch),
